@@ -17,53 +17,39 @@ attribute [local instance] ratPowStub
 
 /-- everything this file decides, evaluated once -/
 def tab1 : Bool :=
-  canonLossShows Ref.c11AsIs && rowCanonLossShows Ref.c11AsIs && canonKeptRoundTrips Ref.c11Reinterned
+  canonKeptRoundTrips Ref.c11AsIs
     && guardQ (asIsCfg .arrayCopy) wDeg && guardQ (asIsCfg .unitOfStr) wDeg && guardQ (asIsCfg .registryJson) wK
-    && guardQ (keepIdentity (asIsCfg .pickleArray)) wDeg && guardQ (keepIdentity (asIsCfg .deepcopyArray)) wK
-    && guardQ ((Ref.c11Reinterned.get .pickleArray).getD Ref.c11Shared) wDeg
-    && guardQ ((Ref.c11Reinterned.get .deepcopyArray).getD Ref.c11Shared) wDB
+    && guardQ (asIsCfg .pickleArray) wDeg && guardQ (asIsCfg .deepcopyArray) wK
+    && guardQ (asIsCfg .pickleUnit) wDB && guardQ (asIsCfg .deepcopyArray) wModG
+    && guardQ (asIsCfg .deepcopyUnit) wCgs && guardQ (asIsCfg .deepcopyArray) wNoLb
 
 theorem tab1_decided : tab1 = true := by decide +kernel
 
-/-- `roundtrip_state_eq_counterexample` (identity): on every route of the present code that carries
-    the unit's data without its identity — pickle of a Unit, deepcopy, Unit.copy — and on pickle of
-    an array (identity of every table row lost): 90° comes back with the bit lost, `sin` of it is
-    `sin(90 rad)`; 300 K + 1 °C raises `InvalidUnitOperation` instead of `UnitOperationError`;
-    dB * m is accepted -/
-theorem identity_loss_shows_asIs :
-    canonLossShows Ref.c11AsIs = true ∧ rowCanonLossShows Ref.c11AsIs = true := by
+/-- identity at full strength (it was a counterexample before fix C11-01): on EVERY route the
+    three witnesses that used to come back with the bit lost — 90°, 300 K, 3 dB — come back with it -/
+theorem identity_kept_on_every_route : canonKeptRoundTrips Ref.c11AsIs = true := by
   have h := tab1_decided
   simp only [tab1, Bool.and_eq_true] at h
-  exact ⟨h.1.1.1.1.1.1.1.1.1, h.1.1.1.1.1.1.1.1.2⟩
+  exact h.1.1.1.1.1.1.1.1.1
 
-/-- … and with the candidate fix (every `lose` re-interned) the three witnesses come back with the
-    bit set on every route -/
-theorem identity_kept_reinterned : canonKeptRoundTrips Ref.c11Reinterned = true := by
-  have h := tab1_decided
-  simp only [tab1, Bool.and_eq_true] at h
-  exact h.1.1.1.1.1.1.1.2
+/-- the same for the table regenerated from the live code -/
+theorem live_identity_kept : canonKeptRoundTrips Generated.persistRoutes = true := by
+  rw [active_routes_classified]; exact identity_kept_on_every_route
 
-/-- the live code either shows the identity defects on every concerned route, or keeps identity -/
-theorem live_identity_status :
-    (canonLossShows Generated.persistRoutes = true ∧ rowCanonLossShows Generated.persistRoutes = true)
-      ∨ canonKeptRoundTrips Generated.persistRoutes = true := by
-  rcases active_routes_classified with h | h <;> rw [h]
-  · exact Or.inl identity_loss_shows_asIs
-  · exact Or.inr identity_kept_reinterned
-
-/-- non-vacuity of the guards of `roundtrip_state_eq_partial` / `…_modulo_identity`: objects and
-    routes that meet them (present code: shared-object routes, `Unit(str(u))`, JSON; pickle and
-    deepcopy only modulo identity; after the candidate fix pickle and deepcopy outright) -/
+/-- non-vacuity of the guard of `roundtrip_state_eq_partial`: it holds outright (identity bits
+    included) on the shared-object routes, `Unit(str(u))`, JSON, and — since the fixes — on pickle and
+    deepcopy, also for a registry with a MODIFIED default symbol, a REMOVED default symbol and a unit
+    system of its own under deepcopy -/
 theorem guards_inhabited :
     guardQ (asIsCfg .arrayCopy) wDeg = true ∧ guardQ (asIsCfg .unitOfStr) wDeg = true
       ∧ guardQ (asIsCfg .registryJson) wK = true
-      ∧ guardQ (keepIdentity (asIsCfg .pickleArray)) wDeg = true
-      ∧ guardQ (keepIdentity (asIsCfg .deepcopyArray)) wK = true
-      ∧ guardQ ((Ref.c11Reinterned.get .pickleArray).getD Ref.c11Shared) wDeg = true
-      ∧ guardQ ((Ref.c11Reinterned.get .deepcopyArray).getD Ref.c11Shared) wDB = true := by
+      ∧ guardQ (asIsCfg .pickleArray) wDeg = true ∧ guardQ (asIsCfg .deepcopyArray) wK = true
+      ∧ guardQ (asIsCfg .pickleUnit) wDB = true ∧ guardQ (asIsCfg .deepcopyArray) wModG = true
+      ∧ guardQ (asIsCfg .deepcopyUnit) wCgs = true ∧ guardQ (asIsCfg .deepcopyArray) wNoLb = true := by
   have h := tab1_decided
   simp only [tab1, Bool.and_eq_true] at h
-  exact ⟨h.1.1.1.1.1.1.2, h.1.1.1.1.1.2, h.1.1.1.1.2, h.1.1.1.2, h.1.1.2, h.1.2, h.2⟩
+  exact ⟨h.1.1.1.1.1.1.1.1.2, h.1.1.1.1.1.1.1.2, h.1.1.1.1.1.1.2, h.1.1.1.1.1.2, h.1.1.1.1.2, h.1.1.1.2,
+    h.1.1.2, h.1.2, h.2⟩
 
 /-- the hypothesis of `identity_loss_pinned_binaryQ / binarySelf` holds of the contexts the checks
     run with: exact equality at ℚ and `math.isclose` at `Float` read scale, offset and dimension only -/
